@@ -54,6 +54,7 @@ namespace pika::detail {
             while (true)
             {
                 if (current == end_node) current = 0;
+                PIKA_VERIF_POINT("bar.try", this, current, round);
                 detail::barrier_phase_t expect = old_phase;
                 if (current == last_node && (current_expected & 1))
                 {
@@ -68,6 +69,7 @@ namespace pika::detail {
                 }
                 else if (expect == half_step)
                 {
+                    PIKA_VERIF_POINT("bar.try2", this, current, round);
                     if (state[current].tickets[round].phase.compare_exchange_strong(
                             expect, full_step, std::memory_order_acq_rel))
                         break;    // I'm 2 in 2, go to next round
@@ -76,6 +78,7 @@ namespace pika::detail {
                 ++current;
             }
 
+            PIKA_VERIF_POST("bar.up", this, current, round);
             current_expected = last_node + 1;
             current >>= 1;
         }
